@@ -228,6 +228,42 @@ def main(tier: str) -> int:
                     FLOW_DRIFT.append(f"Dataset of two graphs through TripleStream, lt {lt}: PyConfig predicts {o2['frames']} frames, the code wrote {nfr}")
             except Exception:  # noqa: BLE001
                 pass
+    # grouped serialization from a generator that REUSES one working sink (filled, yielded, cleared, filled again -- a windowing loop): every window must be written
+    for integ in ("generic", "rdflib"):
+        for quads in (False, True):
+            windows = [[(I(f"http://e/w{w}-s{k}"), I("http://e/p"), I(f"http://e/o{k}")) + ((G1,) if quads else ()) for k in range(2 + w)] for w in range(3)]
+            mod = __import__(f"pyjelly.integrations.{integ}.serialize", fromlist=["grouped_stream_to_file"])
+
+            def reuse(integ=integ, quads=quads, windows=windows):
+                if integ == "generic":
+                    for w_ in windows:
+                        yield impl.generic_sink(w_)          # (the generic sink has no clear(): a fresh object per window, handed over lazily all the same)
+                else:
+                    from rdflib.graph import Dataset, Graph  # noqa: PLC0415
+
+                    work = Dataset() if quads else Graph()
+                    for w_ in windows:
+                        for ctx in (list(work.graphs()) if quads else [work]):
+                            ctx.remove((None, None, None))
+                        for st_ in w_:
+                            tt = [terms.to_rdflib(t_) for t_ in st_]
+                            (work.get_context(tt[3]) if quads else work).add(tuple(tt[:3]))
+                        yield work
+
+            key = {"integ": integ, "entry": "grouped_to_file", "sclass": "quad" if quads else "triple", "ltype": "DATASETS" if quads else "GRAPHS", "delimited": True,
+                   "flow": "inferred", "frame_size": 250, "sinks": 3, "input": "one working sink reused per window"}
+            cfg = impl.default_cfg(integ=integ, sclass=("quad" if quads else "triple"), ltype=(4 if quads else 3), preset=(64, 8, 2), gen=False, star=False)
+            out_ = io.BytesIO()
+            try:
+                mod.grouped_stream_to_file(reuse(), out_, options=impl.make_options(cfg))
+                rows_ = wire.rows_of(wire.dec_delimited(out_.getvalue()))
+                n_st = sum(1 for r_ in rows_ if r_["r"] in ("triple", "quad"))
+            except Exception as ex:  # noqa: BLE001
+                run.violation({"clause": "serializer-raised", **key}, f"{type(ex).__name__}: {str(ex)[:100]}", {"windows": windows})
+                continue
+            if n_st != sum(len(w_) for w_ in windows):
+                run.violation({"clause": "statements-missing", "tier1": "windows", **key},
+                              f"three windows of {[len(w_) for w_ in windows]} statements yielded one after the other from a reused sink: {n_st} statements written", {"windows": windows})
     # an unbuffered output that takes only part of what it is offered (a raw socket file, a pipe): the call must raise or everything must arrive
     import io as _io  # noqa: PLC0415
 
